@@ -549,6 +549,8 @@ def call_module(it, fv, args, kwargs):
         dtype = 'real'
         if isinstance(dt, PyType):
             dtype = {'int': 'int', 'bool': 'bool', 'complex': 'complex', 'float': 'real'}.get(dt.name, 'real')
+        elif isinstance(dt, SObj) and dt.cls == 'dtype':
+            dtype = {'int': 'int', 'bool': 'bool', 'complex': 'complex', 'real': 'real', 'fp': 'real'}.get(dt.attrs.get('name'), 'real')
         if dtype == 'complex':
             val = to_cx(val)
         if dtype == 'bool':
@@ -600,7 +602,10 @@ def call_module(it, fv, args, kwargs):
             import math
             return math.isnan(a0)
         if is_arr(a0):
-            raise Unsupported('isnan of array')
+            if fp:
+                raise Unsupported('isnan of array in IEEE mode')
+            # real mode (assumption A2): array entries are real numbers, none is NaN
+            return npm.map1(ctx, a0, lambda x: False, 'bool')
         return False
     if name == 'isfinite':
         if is_fp_term(a0):
